@@ -625,6 +625,7 @@ def check(run):
                         small = proj
                 run.tie_broken("validate / schedules / resolved dependencies / ScheduledFixtures operations = implementation",
                                case=small, impl=run_impl(small, ops_seed=obs.get("ops_seed")))
+    run.count("dependencies_declared_by_a_predicate", G.PREDICATE_DEPS[0])
     run.coverage["rule"] = (
         "seeded abstract projects: 30% valid by construction (fixture DAGs over 4 scopes, per-thread, fixture_name, duplicates, "
         "parametrized tests, setup_suite/injected uses, dependency DAGs, nested and disabled suites, optional test filter, policies "
